@@ -25,14 +25,17 @@ def gen_script(rng, tag):
     for _ in range(n):
         r = rng.random()
         fid += 1
-        if r < 0.3:
+        lead = rng.choice(['', '', '', '  ', '\t', '\n'])         # chunks that begin with whitespace are chunks like any other
+        if r < 0.22:
             steps.append(['info', f'L{tag}-{fid}'])
+        elif r < 0.3:
+            steps.append(['infochild', f'C{tag}-{fid}'])          # emitted on a child of the labtech logger
         elif r < 0.45:
-            steps.append(['print', f'P{tag}-{fid}'])
+            steps.append(['print', f'{lead}P{tag}-{fid}'])
         elif r < 0.6:
-            steps.append(['out', f'O{tag}-{fid}'])
+            steps.append(['out', f'{lead}O{tag}-{fid}'])
         elif r < 0.7:
-            steps.append(['err', f'E{tag}-{fid}'])
+            steps.append(['err', f'{lead}E{tag}-{fid}'])
         elif r < 0.8:
             steps.append(['out', rng.choice(['\n', ' ', '\t\n', ''])])
         elif r < 0.9:
@@ -50,7 +53,7 @@ def model_script(steps, ids):
         return ids.setdefault(s, len(ids) + 1)
     for st in steps:
         op = st[0]
-        if op in ('info', 'warn'):
+        if op in ('info', 'warn', 'infochild'):
             out.append(f'WEmit {num(st[1])}')
         elif op == 'print':
             out.append(f'WWrite Out {num(st[1])} false')
@@ -72,7 +75,7 @@ def proxy_run(steps):
     err = LoggerFileProxy(lambda msg: recs.append(('err', msg)), 'Captured STDERR:\n')
     for st in steps:
         op = st[0]
-        if op in ('info', 'warn'):
+        if op in ('info', 'warn', 'infochild'):
             recs.append(('log', st[1]))
         elif op == 'print':
             out.write(st[1])
@@ -197,7 +200,7 @@ def expected_counts(cfg):
     want = Counter()
     for steps in cfg['scripts']:
         for st in steps:
-            if st[0] in ('info', 'warn', 'print'):
+            if st[0] in ('info', 'warn', 'print', 'infochild'):
                 want[st[1]] += 1
             elif st[0] in ('out', 'err') and st[1].strip() != '':
                 want[st[1]] += 1
